@@ -20,6 +20,9 @@ import (
 	"runtime/debug"
 	"sort"
 	"strings"
+	"sync"
+
+	enc "github.com/dapr/kit/schemes/enc/v1"
 
 	"verifharness/c01/encx"
 	"verifharness/core"
@@ -605,6 +608,9 @@ func runSequence(ctx *core.Ctx, in input) error {
 			runtime.Gosched()
 		}
 	}
+	// a fresh buffer pool, so that the sequence depends on nothing that ran before it in this
+	// process (a failing input then replays on its own)
+	enc.BufPool = sync.Pool{New: enc.BufPool.New}
 	first := in
 	first.Recipe, first.First, first.Seed = in.First, "", r.U64()
 	if err := run(ctx, first); err != nil {
